@@ -4,11 +4,13 @@ package nebula
 
 import (
 	"bytes"
+	"encoding/binary"
 	"errors"
 	"fmt"
 	"log/slog"
 	"net/netip"
 	"sync"
+	"sync/atomic"
 	"testing"
 	"time"
 
@@ -109,11 +111,23 @@ type c06Session struct {
 	rAlloc     int
 	msg1, msg2 []byte
 	ir, rr     *handshake.Result
+	// alterations of the 16-byte outer header (it is not part of the Noise transcript) applied to the datagram in flight
+	mut1, mut2 func(h []byte)
+	note       string
+}
+
+func c06Altered(pkt []byte, f func(h []byte)) []byte {
+	if f == nil || len(pkt) < header.Len {
+		return pkt
+	}
+	out := append([]byte(nil), pkt...)
+	f(out[:header.Len])
+	return out
 }
 
 func (s *c06Session) desc() map[string]any {
 	return map[string]any{"curve": s.w.curve.String(), "cipher": s.w.cipher, "initiator": s.icfg.String(), "responder": s.rcfg.String(),
-		"initiator_index": s.iIdx, "responder_index": s.rIdx}
+		"initiator_index": s.iIdx, "responder_index": s.rIdx, "note": s.note}
 }
 
 // step k of a session: 0 = initiator builds stage 1, 1 = responder consumes it and answers, 2 = initiator consumes the answer.
@@ -135,14 +149,14 @@ func (s *c06Session) step(k int) error {
 		if err != nil {
 			return err
 		}
-		s.msg2, s.rr, err = s.rm.ProcessPacket(nil, s.msg1)
+		s.msg2, s.rr, err = s.rm.ProcessPacket(nil, c06Altered(s.msg1, s.mut1))
 		if err == nil && (s.rr == nil || len(s.msg2) == 0) {
 			return errors.New("responder returned neither an error nor (result, response)")
 		}
 		return err
 	default:
 		var out []byte
-		out, s.ir, err = s.im.ProcessPacket(nil, s.msg2)
+		out, s.ir, err = s.im.ProcessPacket(nil, c06Altered(s.msg2, s.mut2))
 		if err == nil && (s.ir == nil || out != nil) {
 			return errors.New("initiator returned neither an error nor a bare result")
 		}
@@ -372,6 +386,56 @@ func TestVerifC06(t *testing.T) {
 		c.Capped("time budget (part 1)")
 	}
 	_ = runs
+
+	// Part 1b: the same sessions with the unauthenticated outer header of either datagram altered in flight (message counter,
+	// reserved bytes, remote-index field, subtype). The header is not covered by the Noise transcript, so such a session may
+	// still complete on both sides — it is then "the same session" in the statement's sense and the full oracle applies.
+	// A session that one side refuses is outside the premise and only counted.
+	type hmut struct {
+		name string
+		f    func(h []byte)
+	}
+	var hmuts []hmut
+	for _, v := range []uint64{0, 1, 2, 3, 7, 8191, 8192, 1 << 40, ^uint64(0)} {
+		v := v
+		hmuts = append(hmuts, hmut{fmt.Sprintf("counter=%d", v), func(h []byte) { binary.BigEndian.PutUint64(h[8:16], v) }})
+	}
+	for _, v := range []uint32{0, 1, 0xffffffff, 0xdeadbeef} {
+		v := v
+		hmuts = append(hmuts, hmut{fmt.Sprintf("remoteindex=%d", v), func(h []byte) { binary.BigEndian.PutUint32(h[4:8], v) }})
+	}
+	hmuts = append(hmuts, hmut{"reserved=ffff", func(h []byte) { h[2], h[3] = 0xff, 0xff }}, hmut{"subtype=1", func(h []byte) { h[1] = 1 }}, hmut{"subtype=255", func(h []byte) { h[1] = 255 }})
+	var alteredCompleted, alteredRefused atomic.Int64
+	_, complete1b := mc.ParallelItems(len(worlds)*len(cfgs)*len(cfgs), 0, c.OutOfTime, func(item int, e *mc.Enum) {
+		w := worlds[item/(len(cfgs)*len(cfgs))]
+		icfg := cfgs[(item/len(cfgs))%len(cfgs)]
+		rcfg := cfgs[item%len(cfgs)]
+		which := e.Choose(2) // 0: first datagram altered, 1: the answer altered
+		hm := hmuts[e.Choose(len(hmuts))]
+		s := &c06Session{w: w, icfg: icfg, rcfg: rcfg, iIdx: idx[1], rIdx: idx[len(idx)-1]}
+		if which == 0 {
+			s.mut1 = hm.f
+		} else {
+			s.mut2 = hm.f
+		}
+		for k := 0; k < 3; k++ {
+			if err := s.step(k); err != nil {
+				alteredRefused.Add(1)
+				c.Distinct("altered_header_refused", fmt.Sprintf("datagram %d %s", which+1, hm.name))
+				return
+			}
+		}
+		alteredCompleted.Add(1)
+		c.Add("evaluations", 1)
+		c.Distinct("altered_header_completed", fmt.Sprintf("datagram %d %s", which+1, hm.name))
+		s.note = fmt.Sprintf("outer header of datagram %d altered in flight: %s", which+1, hm.name)
+		c06CheckPair(c, s, l)
+	})
+	if !complete1b {
+		c.Capped("time budget (part 1b)")
+	}
+	c.Set("sessions_with_altered_outer_header_completed", alteredCompleted.Load())
+	c.Set("sessions_with_altered_outer_header_refused", alteredRefused.Load())
 
 	// Part 2: two concurrent sessions between the same peers, all interleavings of their 3+3 steps. Keys pair inside a
 	// session; no key of session 1 opens traffic of session 2 (schedules dimension of the quantifier).
